@@ -1128,6 +1128,10 @@ func (ex *Exec) unwind(st *State) {
 	// the function under contract panics on this path
 	site := curPanicSite[st]
 	delete(curPanicSite, st)
+	if len(ex.top.XGhostSets) > 0 {
+		genv := &SpecEnv{ex: ex, st: st, vars: ex.topVars(st), cur: st, old: entryView{st}, pkg: ex.topFn.Pkg.Pkg, nextOld: st.next0}
+		ex.applyGhostSets(st, genv, ex.top.XGhostSets)
+	}
 	if len(ex.top.XEnsures) > 0 {
 		env := &SpecEnv{ex: ex, st: st, vars: ex.topVars(st), cur: st, old: entryView{st}, pkg: ex.topFn.Pkg.Pkg, nextOld: st.next0}
 		for i, e := range ex.top.XEnsures {
